@@ -45,7 +45,7 @@ REPO = os.environ.get("VERIF_REPO", "/repo")
 FINDING = "D8"
 # the code as it is: (Dev_StaleCfgSnapshot, Dev_DiffIgnoresAddedKeys); flip to "FALSE" when the code is repaired
 # (VERIF_C12_DEVS=FALSE,FALSE overrides it for experiments with a repaired tree)
-AS_CODED = tuple(os.environ.get("VERIF_C12_DEVS", "TRUE,TRUE").split(","))
+AS_CODED = tuple(os.environ.get("VERIF_C12_DEVS", "FALSE,TRUE").split(","))   # stale snapshot repaired by c69ce93
 CHECK_DELAY = 1.0
 MAX_REPORTS = 25
 
